@@ -1429,6 +1429,17 @@ WHERE id IN (`, nil, itemIDs)
 	})
 }
 
+// unixNanoSaturating is t.UnixNano() for the instants an integer column of
+// nanoseconds can hold, and the largest such value for later ones: UnixNano
+// wraps around after the year 2262, which turned a very long nack delay into a
+// next_run_at in the past.
+func unixNanoSaturating(t time.Time) int64 {
+	if t.After(time.Unix(0, math.MaxInt64)) {
+		return math.MaxInt64
+	}
+	return t.UnixNano()
+}
+
 func (s *SQLiteStore) Nack(leaseID string, delay time.Duration) error {
 	if delay < 0 {
 		delay = 0
@@ -1444,7 +1455,7 @@ WHERE lease_id = ?
   AND (lease_until IS NULL OR lease_until > ?);
 `,
 			string(StateQueued),
-			nextRunAt.UnixNano(),
+			unixNanoSaturating(nextRunAt),
 			leaseID,
 			string(StateLeased),
 			now.UnixNano(),
@@ -1467,7 +1478,7 @@ func (s *SQLiteStore) NackBatch(leaseIDs []string, delay time.Duration) (LeaseBa
 		return s.execByItemIDsTx(ctx, conn, `
 UPDATE queue_items
 SET state = ?, lease_id = NULL, lease_until = NULL, next_run_at = ?, dead_reason = NULL
-WHERE id IN (`, []any{string(StateQueued), nextRunAt.UnixNano()}, itemIDs)
+WHERE id IN (`, []any{string(StateQueued), unixNanoSaturating(nextRunAt)}, itemIDs)
 	})
 	if err != nil {
 		return LeaseBatchResult{}, err
